@@ -6,7 +6,6 @@ import (
 	"os"
 	"strings"
 	"sync"
-	"sync/atomic"
 
 	"github.com/lni/vfs"
 )
@@ -68,9 +67,15 @@ type FSCtl struct {
 	cut         bool
 	cutKind     FSOp
 	cutInflight int64
-	// Inflight is maintained by the harness: index of the store call currently
-	// executing, or -1 when none is.
-	Inflight int64
+	cutDone     int
+	// call bookkeeping of the harness, only touched under mu so that it is
+	// ordered with the cut no matter which goroutine performs the cut operation
+	// (Pebble's WAL flusher, flush and compaction workers and tan's obsolete file
+	// deleter issue FS operations on their own goroutines): inflight is the index
+	// of the store call currently executing (-1 none, -2 initial open), done the
+	// number of calls that returned before the cut.
+	inflight int64
+	done     int
 
 	pending     map[string]*pendingFile
 	lastWritten string
@@ -92,7 +97,7 @@ type FSCtl struct {
 
 // NewFSCtl returns a control block for the given strict in-memory FS.
 func NewFSCtl(mem *vfs.MemFS) *FSCtl {
-	return &FSCtl{mem: mem, pending: make(map[string]*pendingFile), Inflight: -1}
+	return &FSCtl{mem: mem, pending: make(map[string]*pendingFile), inflight: -1}
 }
 
 // Trace makes the control block record the kind of every counted operation.
@@ -127,10 +132,53 @@ func (c *FSCtl) ForceCut() bool {
 	}
 	c.cut = true
 	c.cutKind = 0
-	c.cutInflight = -1
+	c.cutInflight = c.inflight
+	c.cutDone = c.done
 	c.mem.SetIgnoreSyncs(true)
 	c.snapshotTornLocked()
 	return true
+}
+
+// SetPhase marks a harness phase that is not a workload call (-2: initial
+// open, -1: between calls).
+func (c *FSCtl) SetPhase(p int64) {
+	c.mu.Lock()
+	c.inflight = p
+	c.mu.Unlock()
+}
+
+// BeginCall marks workload call i as executing. It returns false, and the call
+// must not be made, when the power is already off: a call that starts after
+// the cut never happened.
+func (c *FSCtl) BeginCall(i int) bool {
+	c.mu.Lock()
+	defer c.mu.Unlock()
+	if c.cut {
+		return false
+	}
+	c.inflight = int64(i)
+	return true
+}
+
+// EndCall marks the executing call as returned. Only a call that returns
+// before the cut counts as acknowledged; one that began before the cut and
+// returns after it was recorded as the call in flight by the cut.
+func (c *FSCtl) EndCall() {
+	c.mu.Lock()
+	defer c.mu.Unlock()
+	if !c.cut {
+		c.done++
+	}
+	c.inflight = -1
+}
+
+// CutState returns, for a cut that has fired, the number of workload calls that
+// had returned before it and the call in flight at that instant (-1 none, -2
+// the initial open).
+func (c *FSCtl) CutState() (int, int64) {
+	c.mu.Lock()
+	defer c.mu.Unlock()
+	return c.cutDone, c.cutInflight
 }
 
 // Cut reports whether the power cut fired, which operation kind it hit and the
@@ -196,7 +244,8 @@ func (c *FSCtl) step(kind FSOp) (bool, error) {
 	if c.cutAt > 0 && c.n == c.cutAt && !c.cut {
 		c.cut = true
 		c.cutKind = kind
-		c.cutInflight = atomic.LoadInt64(&c.Inflight)
+		c.cutInflight = c.inflight
+		c.cutDone = c.done
 		c.mem.SetIgnoreSyncs(true)
 		isCut = true
 		if kind != FSWrite {
